@@ -193,6 +193,22 @@ func (cl *cluster) setDelays(rnd *rand.Rand) {
 	cl.c.PreDeliver = extra
 }
 
+// setResponseDelay delays the delivery of every response by d: the request pipeline of the receiving node (which runs in
+// the goroutine that sent the requests) has then certainly completed before a response is handled. Used for the retries
+// that tell the non-repeating loss of an error (a race with that pipeline's completion) from a deterministic one.
+func (cl *cluster) setResponseDelay(d time.Duration) {
+	extra := func(m *node.Msg) {
+		if m.Kind == node.Response {
+			time.Sleep(d)
+		}
+	}
+	if cl.iso != nil {
+		cl.iso.attach(cl.c, extra)
+		return
+	}
+	cl.c.PreDeliver = extra
+}
+
 func (cl *cluster) clearDelays() {
 	if cl.iso != nil {
 		cl.iso.attach(cl.c, nil)
@@ -1010,7 +1026,9 @@ func (r *runner) runLayout(l layoutSpec, iso *isoPlacement) {
 				// pipeline: it does not repeat. An error that is lost on every attempt is something else.
 				repeated := true
 				for attempt := 0; attempt < 2 && repeated; attempt++ {
+					cl.setResponseDelay(150 * time.Millisecond)
 					again := r.runOne(cl, l, q, perm, strict)
+					cl.clearDelays()
 					r.res.count("runs", 1)
 					if again.recreate {
 						cl.close()
@@ -1199,7 +1217,9 @@ func (r *runner) runBaseline() map[int]*baseEntry {
 		if (q.ErrWanted != "" || q.exp.ErrorExpected != "") && full.Err == nil && got0(full) {
 			// the known race that loses the error of an all-not-found answer does not repeat; retry before judging
 			for attempt := 0; attempt < 2 && full.Err == nil; attempt++ {
+				cl.setResponseDelay(150 * time.Millisecond)
 				full = cl.c.Query(q.FullSQL)
+				cl.clearDelays()
 				r.res.Evals++
 			}
 			if full.Err != nil {
